@@ -36,6 +36,8 @@ structure Cfg where
   discTimeout : Bool
   allowHalfClosed : Bool
   writeBufSize : Nat
+  /-- an upgrade service is configured (`flow.upgrade.is_some()`) -/
+  upgrade : Bool := false
   deriving Repr, Inhabited
 
 inductive ReqBody where
@@ -73,6 +75,11 @@ inductive RUnit where
   | chunk (n : Nat)
   /-- the last-chunk `0 CRLF CRLF` -/
   | last
+  /-- a request head that never ends and is at least `MAX_BUFFER_SIZE` bytes long -/
+  | huge
+  /-- the two halves of such a head: each below the cap, together above it -/
+  | hugeA
+  | hugeB
   deriving DecidableEq, Repr, Inhabited
 
 /-! ## `payload.rs`: one request-body channel -/
@@ -113,6 +120,8 @@ inductive Out where
   /-- bytes accepted by the socket -/
   | wrote (bs : Bytes)
   | ioShutdown
+  /-- the connection (io, codec, read buffer, write buffer) is handed to the upgrade service -/
+  | upgrade (r : Nat)
   /-- the task's waker was invoked -/
   | wake
   /-- result of a payload reader poll: `some n` data, or end marker -/
@@ -195,11 +204,14 @@ inductive St where
   | service (r : ReqFacts)
   | sendPayload (r : Nat)
   | sendErrPayload (r : Option Nat)
+  /-- `DispatcherState::Upgrade`: the upgrade service owns the connection -/
+  | upgrade (r : ReqFacts)
   deriving DecidableEq, Repr, Inhabited
 
 inductive Msg where
   | item (r : ReqFacts) (ctx : EncCtx)
   | error (status : Nat)
+  | upgrade (r : ReqFacts)
   deriving DecidableEq, Repr, Inhabited
 
 inductive PDec where
@@ -223,6 +235,8 @@ def DErr.name : DErr → String
 /-- where inside `Dispatcher::poll` the machine is -/
 inductive Mode where
   | idle | normal | linger | shutdown | done
+  /-- the upgrade service's future is being polled -/
+  | upgraded
   deriving DecidableEq, Repr, Inhabited
 
 structure DState where
@@ -321,6 +335,7 @@ inductive Decoded where
   | eof
   | needMore
   | errParse
+  | errTooLarge
   deriving DecidableEq, Repr, Inhabited
 
 def bodyPrefix : List RUnit → Nat × List RUnit
@@ -363,6 +378,10 @@ def decodeHead (buf : List RUnit) : Decoded × List RUnit × Option PDec :=
   | .headA r :: .headB r' :: rest => if r == r' then (.item r, rest, none) else (.errParse, buf, none)
   | [.headA _] => (.needMore, buf, none)
   | [.badA] => (.needMore, buf, none)
+  -- `httparse::Status::Partial` with `src.len() >= MAX_BUFFER_SIZE` (decoder.rs)
+  | .huge :: _ => (.errTooLarge, buf, none)
+  | .hugeA :: .hugeB :: _ => (.errTooLarge, buf, none)
+  | [.hugeA] => (.needMore, buf, none)
   | _ => (.errParse, buf, none)
 
 /-- one `codec.decode(read_buf)` call: result, remaining buffer, new payload decoder -/
@@ -445,6 +464,9 @@ inductive Event where
   -- the request-body reader (handler side of `payload.rs`)
   | readerPoll (r : Nat)
   | readerDrop (r : Nat)
+  -- the upgrade service
+  | upgradeEncode (res : RespHead) (data : Bytes)
+  | upgradeDone (okay : Bool)
   deriving Repr, Inhabited
 
 /-! ## response start: `send_response` / `send_error_response` (l.459 / l.509) -/
@@ -501,6 +523,13 @@ def pushError (s : DState) (status : Nat) (e : DErr) : DState :=
 def applyDecoded (cfg : Cfg) (s0 : DState) : Decoded → DState × List Out
   | .needMore => ({ s0 with inDecode := false }, [])
   | .item r =>
+    if r.body == .stream && cfg.upgrade then
+      -- `MessageType::Stream if this.flow.upgrade.is_some()` (l.941): queued for the upgrade
+      -- service, decode loop left; the codec keeps the context of *this* request (nothing is
+      -- saved or restored for an `Upgrade` message)
+      ({ s0 with pdec := some .stream, headTimer := Timer.inactive, drainable := false,
+                 ctx := newCtx cfg s0.ctx r, messages := s0.messages ++ [Msg.upgrade r], inDecode := false }, [])
+    else
     let s2 := acceptItem s0 r
     if s2.st == .none then startRequest { s2 with ctx := newCtx cfg s0.ctx r } r
     else
@@ -519,6 +548,10 @@ def applyDecoded (cfg : Cfg) (s0 : DState) : Decoded → DState × List Out
   | .errParse =>
     let (s1, o) := s0.takePayloadErr .encodingCorrupted
     (pushError s1 400 .parse, o)
+  -- l.1013: payload.set_error(Overflow); push 431; READ_DISCONNECT; error
+  | .errTooLarge =>
+    let (s1, o) := s0.takePayloadErr .overflow
+    (pushError s1 431 .parse, o)
 
 /-- `poll_response` with `State::None` (l.572–620) -/
 def applyPop (cfg : Cfg) (s : DState) : DState × List Out :=
@@ -531,6 +564,10 @@ def applyPop (cfg : Cfg) (s : DState) : DState × List Out :=
     | .error status :: rest =>
       sendResponse cfg { s with messages := rest } none
         { status := status, connType := none, chunked := true, headers := [] } (.sized 0) true
+    -- l.608 + `InnerDispatcher::upgrade` (l.1278): io, codec, read buffer **and write buffer** go to
+    -- the upgrade service; nothing that was encoded so far is lost
+    | .upgrade r :: rest =>
+      ({ s with messages := rest, st := .upgrade r, mode := .upgraded }, [.begin r.rid, .upgrade r.rid])
     | [] =>
       ({ s with flags := { s.flags with keepAlive := s.payload.isNone && s.ctx.connType == .keepAlive } }, [])
 
@@ -545,7 +582,12 @@ def bodyOwner : St → Option (Option Nat)
   | .sendErrPayload r => some r
   | _ => none
 
-def inPoll (s : DState) : Bool := s.mode == .normal || s.mode == .linger || s.mode == .shutdown
+def inPoll (s : DState) : Bool :=
+  s.mode == .normal || s.mode == .linger || s.mode == .shutdown || s.mode == .upgraded
+
+/-- `read_buf.len() >= MAX_BUFFER_SIZE` (only an oversized head reaches the cap in the modelled class) -/
+def DState.bufFull (s : DState) : Bool :=
+  s.readBuf.contains .huge || (s.readBuf.contains .hugeA && s.readBuf.contains .hugeB)
 
 /-! ## the transition function -/
 
@@ -592,7 +634,7 @@ def step (cfg : Cfg) (s : DState) : Event → Option (DState × List Out)
     else none
   -- read_available (l.1159); also used by poll_linger
   | .readData us =>
-    if (s.mode == .normal || s.mode == .linger) && !s.flags.readDisc && !us.isEmpty then
+    if (s.mode == .normal || s.mode == .linger) && !s.flags.readDisc && !us.isEmpty && !s.bufFull then
       ok { s with readBuf := s.readBuf ++ us, readSome := true,
                   flags := { s.flags with finished := s.flags.finished && s.slotDropped } }
     else none
@@ -726,12 +768,23 @@ def step (cfg : Cfg) (s : DState) : Event → Option (DState × List Out)
   | .flushPending =>
     if inPoll s && !s.writeBuf.isEmpty then
       -- linger / shutdown return Pending at once; normal mode goes on to the tail
-      if s.mode == .normal then ok s else ok { s with mode := .idle }
+      if s.mode == .normal || s.mode == .upgraded then ok s else ok { s with mode := .idle }
     else none
   | .flushZero =>
-    if inPoll s && !s.writeBuf.isEmpty then finish s false DErr.io.name else none
+    if inPoll s && !s.writeBuf.isEmpty then
+      finish s false (if s.mode == .upgraded then "upgrade" else DErr.io.name) else none
   | .flushErr =>
-    if inPoll s && !s.writeBuf.isEmpty then finish s false DErr.io.name else none
+    if inPoll s && !s.writeBuf.isEmpty then
+      finish s false (if s.mode == .upgraded then "upgrade" else DErr.io.name) else none
+  -- the upgrade service (`DispatcherState::Upgrade`): it encodes through the `Framed` it was given
+  | .upgradeEncode res data =>
+    if s.mode == .upgraded then
+      let te := chooseTE s.ctx res .stream
+      ok { s with writeBuf := s.writeBuf ++ encodeHead s.ctx res .stream ++ (teEncode te data).2,
+                  te := (teEncode te data).1 }
+    else none
+  | .upgradeDone okay =>
+    if s.mode == .upgraded then finish s okay (if okay then "ok" else "upgrade") else none
   -- poll_linger (l.400)
   | .lingerArm =>
     if s.mode == .linger && s.writeBuf.isEmpty then
